@@ -355,7 +355,9 @@ def _i_check(name):
     return eff
 
 
-NAMESETS = [["a", "b", "c"], ["id", "Id", "ID"], ['"n"', "n", "[n]"], ["x", "`x`", "X"]]
+NAMESETS = [["a", "b", "c"], ["id", "Id", "ID"], ['"n"', "n", "[n]"], ["x", "`x`", "X"], ["asc", "desc", "term"]]
+NORM = env_int("VF_NORM", 0)  # normalize_names=True on the shared parser (only with the plain name set)
+UKNAME = "`key`"
 NAMES = NAMESETS[env_int("VF_NAMES", 0)]
 A, B, C = NAMES
 CHECK_TOKS = kw("CHECK") + [("LP", "(")] + ident("a") + ident(">") + ident("1") + [("RP", ")")]
@@ -389,6 +391,9 @@ def _i_fk_full(t):
 
 
 ITEMS[-1] = (ITEMS[-1][0], ITEMS[-1][1], _i_fk_full)
+ITEMS.append(("UNIQUE KEY `key` (a, b)", kw("UNIQUE", "KEY") + ident(UKNAME) + pid(A, B), _i_named_uniq("key" if NORM else UKNAME, [A, B])))
+# (MySQL index-style UNIQUE KEY name (col): single column -> the column is flagged; the index name is not a constraint)
+ITEMS.append(("UNIQUE KEY uk (b)", kw("UNIQUE", "KEY") + ident("uk") + pid(B), _i_uniq([B])))
 NI = len(ITEMS)
 PKS = {0, 1, 2, 3, 15, 16}
 I1 = env_int("VF_I1", -1)
@@ -438,7 +443,11 @@ def c_items(i1: int, i2: int, inline_pk: bool, inline_unique: bool, inline_fk: b
     post: _
     """
     cols_tokens, t = _items_case(i1, i2, inline_pk, inline_unique, inline_fk)
-    out = drive(table_tokens(cols_tokens, [ITEMS[i1][1], ITEMS[i2][1]]))
+    PARSER.normalize_names = bool(NORM)
+    try:
+        out = drive(table_tokens(cols_tokens, [ITEMS[i1][1], ITEMS[i2][1]]))
+    finally:
+        PARSER.normalize_names = False
     if not isinstance(out, dict):
         return False
     res = norm_refs(fmt([out], "sql"))
@@ -500,5 +509,5 @@ def api_c_items(i1, i2, inline_pk, inline_unique, inline_fk):
     from simple_ddl_parser import DDLParser
     cols_tokens, t = _items_case(i1, i2, inline_pk, inline_unique, inline_fk)
     ddl = _text(table_tokens(cols_tokens, [ITEMS[i1][1], ITEMS[i2][1]])).replace(" . ", ".") + " ;"
-    got = norm_refs(DDLParser(ddl).run())
+    got = norm_refs(DDLParser(ddl, normalize_names=bool(NORM)).run())
     return {"ddl": ddl, "got": got, "expected": [t], "reproduced": got != [t]}
